@@ -57,6 +57,9 @@ def impl(case):
         kw["i"] = I
     if not (dflt and set(case["R"]) == V - {case["x"], case["y"]}):
         kw["r"] = R
+    if C.warm_decide(case, 4):
+        # query, edit the same object in place, query again (see common.warmup)
+        C.warmup(G, lambda: pywhy_nx.minimal_m_separator(G, x, y), layers=("directed", "bidirected", "undirected"))
     before = C.snapshot(G)
     out = {"ismin": {}}
     if case.get("call", "min") != "ismin":
